@@ -16,8 +16,8 @@ SPECS = """
 pub open spec fn shift16_ok(g: &GeneratorState, left: ExprType, right: ExprType) -> bool {
     &&& right is Immediate
     &&& match left {
-            ExprType::Absolute(n, eb, off) => !eb && g.compiler_state.var(n@).var_type == VariableType::Short && ident(n@) && -0x100_0000 <= off <= 0x100_0000 && g.compiler_state.var(n@).size < 0x100_0000,
-            ExprType::AbsoluteX(n) => g.compiler_state.var(n@).var_type == VariableType::ShortPtr && ident(n@) && g.compiler_state.var(n@).size < 0x100_0000,
+            ExprType::Absolute(n, eb, off) => g.compiler_state.declared(n@) && !eb && g.compiler_state.var(n@).var_type == VariableType::Short && ident(n@) && -0x100_0000 <= off <= 0x100_0000 && g.compiler_state.var(n@).size < 0x100_0000,
+            ExprType::AbsoluteX(n) => g.compiler_state.declared(n@) && g.compiler_state.var(n@).var_type == VariableType::ShortPtr && ident(n@) && g.compiler_state.var(n@).size < 0x100_0000,
             _ => false,
         }
 }
@@ -67,6 +67,8 @@ def build(repo):
     // after the block stands for falling through to the general path (generate_shift + generate_assign), which is not part of this unit.
     pub fn shift_assign_dispatch(&mut self, left: ExprType, right: ExprType, op: &Operation, pos: usize, high_byte: bool) -> (res: Result<ExprType, Error>)
         requires names_ok(left), (left is Absolute || left is AbsoluteX || left is AbsoluteY) ==> var_of(old(self), left).size < 0x100_0000,
+            // `left` came out of generate_expr, which looked the variable up (U-subscript: variable_or_error)
+            match left { ExprType::Absolute(n, _, _) => old(self).compiler_state.declared(n@), ExprType::AbsoluteX(n) => old(self).compiler_state.declared(n@), ExprType::AbsoluteY(n) => old(self).compiler_state.declared(n@), _ => true },
     {
 %s
         Ok(ExprType::Nothing)
